@@ -1189,8 +1189,43 @@ func (e *c20Env) glue() map[string]bool {
 	_, e3 := metrics.NewPrometheusMetricsBuilder(c20BadRegisterer{}, "", "").DecoratePublisher(&c20Pub{})
 	_, e4 := metrics.NewPrometheusMetricsBuilder(c20BadRegisterer{}, "", "").DecorateSubscriber(newC20Sub())
 	res["registration failure is reported by DecoratePublisher/DecorateSubscriber"] = e3 != nil && e4 != nil
+	// a wrapped subscriber / publisher whose Subscribe or Close panics: the panic escapes every decorator unchanged
+	escapes := func(f func()) (ok bool) {
+		defer func() { ok = recover() == c20PanicValue }()
+		f()
+		return false
+	}
+	stackSub := func() message.Subscriber {
+		s1, _ := message.MessageTransformSubscriberDecorator(appendTrail(1))(c20PanicSub{})
+		s2, _ := metrics.NewPrometheusMetricsBuilder(prometheus.NewRegistry(), "", "").DecorateSubscriber(s1)
+		return s2
+	}
+	res["a panic in the wrapped subscriber's Subscribe escapes transform + metrics decorators"] = escapes(func() { stackSub().Subscribe(context.Background(), "t") })
+	res["a panic in the wrapped subscriber's Close escapes transform + metrics decorators"] = escapes(func() { stackSub().Close() })
+	stackPub := func() message.Publisher {
+		p1, _ := message.MessageTransformPublisherDecorator(appendTrail(1))(c20PanicPub{})
+		p2, _ := delay.NewPublisher(p1, delay.PublisherConfig{AllowNoDelay: true})
+		p3, _ := metrics.NewPrometheusMetricsBuilder(prometheus.NewRegistry(), "", "").DecoratePublisher(p2)
+		return p3
+	}
+	res["a panic in the wrapped publisher's Close escapes transform + delay + metrics decorators"] = escapes(func() { stackPub().Close() })
+	res["a panic in the wrapped publisher's Publish escapes transform + delay + metrics decorators with its value"] = escapes(func() { stackPub().Publish("t", message.NewMessage("u", nil)) })
 	return res
 }
+
+var c20PanicValue = errors.New("scripted collaborator panic")
+
+type c20PanicSub struct{}
+
+func (c20PanicSub) Subscribe(context.Context, string) (<-chan *message.Message, error) {
+	panic(c20PanicValue)
+}
+func (c20PanicSub) Close() error { panic(c20PanicValue) }
+
+type c20PanicPub struct{}
+
+func (c20PanicPub) Publish(string, ...*message.Message) error { panic(c20PanicValue) }
+func (c20PanicPub) Close() error                              { panic(c20PanicValue) }
 
 type c20BadRegisterer struct{}
 
